@@ -368,3 +368,18 @@ B('poly-mul-zero-first', ('gfpx', "        p = cls.p\n        if len(a) > len(b)
 M('poly-mul-zero-first-only-a', ['C23'], ('gfpx', "        p = cls.p\n        if len(a) > len(b):\n            a, b = b, a\n        # len(a) <= len(b)\n        if not a:\n            return []\n",
                                           "        p = cls.p\n        if not a:\n            return []\n\n        if len(a) > len(b):\n            a, b = b, a\n"),
   why='the zero test runs before the swap and sees the first operand only: b = 0 with a longer a allocates len(a) - 1 zeros (OP9)')
+M('sqrt-chunks-by-completion', ['C37'], (FF, "                    tasks = {executor.submit(gmpy2.powmod_base_list, s[i*n//W:(i+1)*n//W], p4, p): i\n                             for i in range(W)}\n                s = np.empty(n, dtype='O')\n                for task in concurrent.futures.as_completed(tasks):\n                    i = tasks[task]\n",
+                                             "                    tasks = [executor.submit(gmpy2.powmod_base_list, s[i*n//W:(i+1)*n//W], p4, p)\n                             for i in range(W)]\n                s = np.empty(n, dtype='O')\n                i = -1\n                for task in concurrent.futures.as_completed(tasks):\n                    i += 1\n"),
+  why='chunk position from a running counter of completions (WK1)')
+B('sqrt-chunks-bounds-lookup', (FF, "                    tasks = {executor.submit(gmpy2.powmod_base_list, s[i*n//W:(i+1)*n//W], p4, p): i\n                             for i in range(W)}\n                s = np.empty(n, dtype='O')\n                for task in concurrent.futures.as_completed(tasks):\n                    i = tasks[task]\n                    s[i*n//W:(i+1)*n//W] = task.result()",
+                                    "                    tasks = {executor.submit(gmpy2.powmod_base_list, s[i*n//W:(i+1)*n//W], p4, p): (i*n//W, (i+1)*n//W)\n                             for i in range(W)}\n                s = np.empty(n, dtype='O')\n                for done in concurrent.futures.as_completed(tasks):\n                    lo, hi = tasks[done]\n                    s[lo:hi] = done.result()"),
+  why='chunk bounds stored with the future and looked up on completion (WK1 must stay silent)')
+B('sqrt-chunks-submission-order', (FF, "                    tasks = {executor.submit(gmpy2.powmod_base_list, s[i*n//W:(i+1)*n//W], p4, p): i\n                             for i in range(W)}\n                s = np.empty(n, dtype='O')\n                for task in concurrent.futures.as_completed(tasks):\n                    i = tasks[task]\n                    s[i*n//W:(i+1)*n//W] = task.result()",
+                                       "                    tasks = [executor.submit(gmpy2.powmod_base_list, s[i*n//W:(i+1)*n//W], p4, p)\n                             for i in range(W)]\n                s = np.empty(n, dtype='O')\n                for i, task in enumerate(tasks):\n                    s[i*n//W:(i+1)*n//W] = task.result()"),
+  why='results taken in submission order (no as_completed at all): same array (WK1 must stay silent, count 0)')
+B('poly-mul-short-long', ('gfpx', "        if len(a) > len(b):\n            a, b = b, a\n        # len(a) <= len(b)\n        if not a:\n            return []\n\n        c = [0] * (len(a) + len(b) - 1)\n        for i, a_i in enumerate(a):\n            if a_i:\n                for j, b_j in enumerate(b):",
+                                  "        short, long = (b, a) if len(a) > len(b) else (a, b)\n        if not short:\n            return []\n\n        c = [0] * (len(short) + len(long) - 1)\n        for i, a_i in enumerate(short):\n            if a_i:\n                for j, b_j in enumerate(long):"),
+  why='operands ordered by a conditional expression over tuples (held-out R43-3; OP9 must stay silent)')
+M('poly-mul-short-long-wrong-test', ['C23'], ('gfpx', "        if len(a) > len(b):\n            a, b = b, a\n        # len(a) <= len(b)\n        if not a:\n            return []\n\n        c = [0] * (len(a) + len(b) - 1)\n        for i, a_i in enumerate(a):\n            if a_i:\n                for j, b_j in enumerate(b):",
+                                  "        short, long = (b, a) if len(a) > len(b) else (a, b)\n        if not long:\n            return []\n\n        c = [0] * (len(short) + len(long) - 1)\n        for i, a_i in enumerate(short):\n            if a_i:\n                for j, b_j in enumerate(long):"),
+  why='same ordering, zero test on the longer operand (OP9)')
